@@ -231,7 +231,7 @@ class ObjRun:
     def c01_value(self, o: Obj, how):
         from cuqi.density import EvaluatedDensity
         ctx, vals = self.ctx, self.vals
-        if o.root != "J" or any(st.get("special") for st in o.path):
+        if o.root != "J" or any(st.get("special") or st.get("alt") for st in o.path):
             return
         obj = o.obj
         try:
@@ -384,8 +384,9 @@ class ObjRun:
         else:
             names = list(r.permutation(cands)[:k])
         step = {"names": names, "how": op["how"]}
-        if op.get("alt") and o.root != "J":
-            step["alt"] = True                 # (component distributions only: the C01 value oracle needs one assignment)
+        if op.get("alt"):
+            step["alt"] = True                 # (objects reached through an alternative value are not judged by the C01
+                                               #  value oracle, which needs the one complete assignment)
         sg = {"engine": "objhist", "obj_class": type(o.obj).__name__, "how": op["how"],
               "graph": self.sc["graph"]["graph"], "root": o.root.split(":")[0]}
         try:
@@ -508,7 +509,7 @@ class ObjRun:
             if not close(v, w, 1e-9):
                 ctx.violate("C01", "wrong_value", {"engine": "objhist", "obj_class": "_StackedJointDistribution",
                                                    "how": "stacked", "graph": self.sc["graph"]["graph"]}, got=v, expected=w)
-            if o.root == "J" and not any(s_.get("special") for s_ in o.path) and not close(w, self.total, 1e-9):
+            if o.root == "J" and not any(s_.get("special") or s_.get("alt") for s_ in o.path) and not close(w, self.total, 1e-9):
                 ctx.violate("C01", "wrong_value", {"engine": "objhist", "obj_class": type(obj).__name__,
                                                    "how": "kw", "graph": self.sc["graph"]["graph"]}, got=w, expected=self.total)
 
@@ -534,7 +535,8 @@ class ObjRun:
         again with the same array objects: the result must be that of the current contents."""
         from cuqi.density import EvaluatedDensity
         ctx = self.ctx
-        if o.root != "J" or o.kind == "model" or isinstance(o.obj, EvaluatedDensity) or any(st.get("special") for st in o.path):
+        if o.root != "J" or o.kind == "model" or isinstance(o.obj, EvaluatedDensity) or \
+                any(st.get("special") or st.get("alt") for st in o.path):
             return
         try:
             pn = list(o.obj.get_parameter_names())
@@ -693,7 +695,14 @@ class ObjRun:
             return
         key = sorted(ms)[op["pick"] % len(ms)]
         Mo = ms[key]
-        q = Gaussian(np.zeros(Mo.domain_dim), 1.0, name="q%d" % (op["pick"] % 3))
+        try:
+            import copy as _copy
+            # an equal but DISTINCT geometry object (handing the model's own geometry object to another distribution
+            # would be the caller's aliasing, not the library's)
+            q = Gaussian(np.zeros(Mo.domain_dim), 1.0, name="q%d" % (op["pick"] % 3),
+                         geometry=_copy.deepcopy(Mo.domain_geometry))
+        except Exception:
+            q = Gaussian(np.zeros(Mo.domain_dim), 1.0, name="q%d" % (op["pick"] % 3))
         _try(lambda: Mo(q))
         _try(lambda: Mo @ q)
         self.ctx.hit("model_applied_to_distribution")
@@ -712,7 +721,7 @@ def _short(v):
         return str(val)[:80]
 
 
-TAGS = {"lognormal_cov_s": ["x.cov"], "lin_sqrtprecF": ["y.cov"], "lin_s": ["y.cov"], "lin_d_s": ["x.prec", "y.cov"], "gmrf_d_s": ["x.prec", "y.prec"], "lmrf_d": ["x.scale"],
+TAGS = {"sigdep_x": ["x.prec", "y.cov"], "reg_d": ["x.prec"], "lin_geom": ["y.cov"], "lognormal_cov_s": ["x.cov"], "lin_sqrtprecF": ["y.cov"], "lin_s": ["y.cov"], "lin_d_s": ["x.prec", "y.cov"], "gmrf_d_s": ["x.prec", "y.prec"], "lmrf_d": ["x.scale"],
         "two_lik": ["y2.cov"], "nonlin": ["y.cov"], "xz_s": ["y.cov"], "laplace_b": ["x.scale"],
         "mean_m": ["x.mean", "y.cov"], "cmrf_d": ["x.scale"], "lognormal": ["y.cov"]}
 
